@@ -240,8 +240,13 @@ fn rotate(
             }
         }
 
+        #[cfg(feature = "verif_hooks")]
+        crate::verif::fault_point("rotate.shift", i as u64)?;
         move_file(src.as_ref(), dst.as_ref())?;
     }
+
+    #[cfg(feature = "verif_hooks")]
+    crate::verif::fault_point("rotate.final", base as u64)?;
 
     compression.compress(&file, &dst_0).map_err(|e| {
         println!("err compressing: {:?}, dst: {:?}", file, dst_0);
